@@ -20,7 +20,7 @@
 //        | getTransitionProbability (A*S*S) | getTransitionFunction(a)(s,s1) | getObservationProbability (A*S*O) | getObservationFunction(a)(s1,o)
 //   C05 accept <class> S A O | T | Ob | <1 = constructed, 0 = std::invalid_argument>      (class = dense | sparse, table constructors)
 //   C05 hist <rep> <exact> S A O | T (A*S*S, a-major) | Ob (A*S*O, a-major) | b0 (S) | n a1 o1 .. an on
-//        | { alpha_t(S) bel_t(S) } for t = 1..n
+//        | { alpha_t(S) bel_t(S) } for t = 1..n | k P(o_t | b_{t-1}, a_t) for t = 1..k   (k = n on a SparseModel: its own getObservationProbability(b,o,a); else 0)
 //   C05 inplace <fn> <rep> <exact> S O o | T_a | Ob_a | in (S) | out-of-place result (S) | result of the same call with bRet == &in (S)
 //     fn = unnorm | update | partial | punnorm | pnorm  (the five pointer overloads)
 //   C05 overload <component> <what>      (only emitted when two overloads of one helper disagree)
@@ -529,6 +529,7 @@ template <class M>
 static void emitHist(const M & m, const char * rep, const Tables & t, const AI::Vector & b0, Rng & rng, size_t n, bool exact) {
     std::vector<size_t> as, os;
     std::vector<AI::Vector> alphas, bels;
+    std::vector<double> pobs;      // the model's own P(o_t | b_{t-1}, a_t), where it offers one (SparseModel)
     AI::Vector alpha = b0, bel = b0;
     for (size_t k = 0; k < n; ++k) {
         size_t a = rng.below(t.A);
@@ -538,6 +539,7 @@ static void emitHist(const M & m, const char * rep, const Tables & t, const AI::
         if (pos.empty()) break;
         size_t o = rng.pick(pos);
         alpha = PO::updateBeliefUnnormalized(m, alpha, a, o);
+        if constexpr (requires { m.getObservationProbability(bel, o, a); }) pobs.push_back(m.getObservationProbability(bel, o, a));
         bel = PO::updateBelief(m, bel, a, o);
         as.push_back(a); os.push_back(o); alphas.push_back(alpha); bels.push_back(bel);
     }
@@ -551,6 +553,8 @@ static void emitHist(const M & m, const char * rep, const Tables & t, const AI::
     for (size_t k = 0; k < as.size(); ++k) l << as[k] << os[k];
     l << "|";
     for (size_t k = 0; k < as.size(); ++k) { putVec(l, alphas[k]); putVec(l, bels[k]); }
+    l << "|" << (size_t)pobs.size();
+    for (double p : pobs) l << p;
     l.emit();
 }
 
